@@ -704,9 +704,12 @@ def run(chk):
                 continue
             detail = "iterating read %s gives %r, the resolved document has %r" % (e, got[1:] if got[0] == "ok" else got, want)
             rp = {"kind": "iter", "yaml": text, "expr": e, "want": want, "detail": detail}
-            unknown = [c for c in cl if not chk.is_known(c)]
-            if cl and not unknown:
-                for c in cl:
+            cls = set(cl)
+            if '["<<"]' in e and not e.startswith("explode(.)") and has_real_merge(doc):
+                cls.add("quoted-merge-read")       # asking for the key spelled << through the un-exploded document
+            unknown = [c for c in cls if not chk.is_known(c)]
+            if cls and not unknown:
+                for c in cls:
                     stats["known_class_hits"][c] = stats["known_class_hits"].get(c, 0) + 1
             else:
                 nviol += 1
